@@ -7,7 +7,7 @@ From Coq Require Import List NArith.
 Local Open Scope string_scope.
 Local Open Scope list_scope.
 Import ListNotations.
-From UV Require Import Py.Val Py.Str Py.Utf8 Py.UrlLib Py.Pct Gen.Tables Ural.Quote Spec.C14 Proofs.QuoteFacts.
+From UV Require Import Py.Val Py.Str Py.Utf8 Py.UrlLib Py.Pct Gen.Tables Ural.Quote Spec.C14 Proofs.QuoteFacts Proofs.UnquoteFacts.
 
 (* safely_quote: pure ASCII, every pre-existing escape kept, everything else escaped unless
    unreserved or '/'; hence same decoded bytes; quoting twice = quoting once *)
@@ -51,6 +51,15 @@ Theorem C14_delims_ok :
 Proof. exact delims_ok. Qed.
 
 (* non-vacuity / the historical witnesses on the (fixed) model *)
+(* the four safely_unquote_* (for every unsafe table, hence for auth item / path / query item / fragment):
+   no raw space is ever left, and a string holding no '%' is returned as it is but for its spaces *)
+Theorem C14_unquote_no_raw_space : forall unsafe s, mem 32%N (safely_unquote unsafe s) = false.
+Proof. exact safely_unquote_no_raw_space. Qed.
+
+Theorem C14_unquote_plain_text : forall unsafe s,
+  mem 37%N s = false -> mem 32%N s = false -> safely_unquote unsafe s = s.
+Proof. exact safely_unquote_plain_text. Qed.
+
 Example C14_examples :
   safely_unquote_path (lit "%2541") = lit "%2541" /\
   safely_unquote_path (lit "%4%31") = lit "%4%31" /\
@@ -74,3 +83,5 @@ Print Assumptions C14_upper_quoted_idem.
 Print Assumptions C14_untok_tokens.
 Print Assumptions C14_tokens_untok.
 Print Assumptions C14_delims_ok.
+Print Assumptions C14_unquote_no_raw_space.
+Print Assumptions C14_unquote_plain_text.
